@@ -179,6 +179,9 @@ impl<R> Archive<R> {
             .chunker_params
             .ok_or_else(|| ArchiveError::invalid_archive("invalid chunker parameters"))?;
         let chunk_hash_length = chunker_params.chunk_hash_length as usize;
+        if chunk_hash_length == 0 || chunk_hash_length > HashSum::MAX_LEN {
+            return Err(ArchiveError::invalid_archive("invalid chunk hash length"));
+        }
         let source_order: Vec<usize> = dictionary
             .rebuild_order
             .into_iter()
